@@ -1,0 +1,52 @@
+//go:build verif
+
+package innerring
+
+import (
+	"time"
+
+	"github.com/nspcc-dev/neo-go/pkg/crypto/keys"
+	"github.com/nspcc-dev/neo-go/pkg/util"
+	"github.com/nspcc-dev/neofs-node/pkg/morph/client"
+	"go.uber.org/zap"
+)
+
+// VerifNewCachingStateServer is VerifNewStateServer with the inner ring
+// indexer built exactly as New builds it: over the given key fetchers and
+// with the given cache timeout (indexer.cache_timeout of the configuration).
+func VerifNewCachingStateServer(log *zap.Logger, cli *client.Client, key *keys.PublicKey, alphabetContracts []util.Uint160,
+	irf interface {
+		InnerRingKeys() (keys.PublicKeys, error)
+	}, comf interface {
+		Committee() (keys.PublicKeys, error)
+	}, cacheTimeout time.Duration) *Server {
+	return &Server{
+		log:           log,
+		fsChainClient: cli,
+		statusIndex:   newInnerRingIndexer(comf, irf, key, cacheTimeout),
+		contracts:     &contracts{alphabet: alphabetContracts},
+	}
+}
+
+// VerifResetIndexer drops the cached indexes the way Server.restartFSChain
+// does it after the connection to the RPC node has been lost and restored.
+func (s *Server) VerifResetIndexer() {
+	s.statusIndex.reset()
+}
+
+// VerifElapse makes the cached indexes d older, as if d had passed on the
+// wall clock since they were stored (the indexer reads time.Now directly).
+// The zero time ("never read") stays the zero time.
+func (s *Server) VerifElapse(d time.Duration) {
+	s.statusIndex.Lock()
+	defer s.statusIndex.Unlock()
+
+	if !s.statusIndex.lastAccess.IsZero() {
+		s.statusIndex.lastAccess = s.statusIndex.lastAccess.Add(-d)
+	}
+}
+
+// VerifSetAlphabetContracts replaces the list of alphabet contracts.
+func (s *Server) VerifSetAlphabetContracts(alphabetContracts []util.Uint160) {
+	s.contracts.alphabet = alphabetContracts
+}
